@@ -699,7 +699,7 @@ pub fn run(ctx: &Ctx, out: &mut Outcome) {
     let bin = ctx.hyeong_bin();
     let scratch = ctx.scratch.clone();
     let budget = t.pick(400, 3000);
-    search::<Case11>(ctx, out, "debugger-sessions", t.pick(8_000, 120_000), &strategy, &move |c, st| check(c, st, &bin, &scratch, budget));
+    search::<Case11>(ctx, out, "debugger-sessions", t.pick(20_000, 250_000), &strategy, &move |c, st| check(c, st, &bin, &scratch, budget));
 }
 
 pub fn replay(ctx: &Ctx, v: &Value) -> Result<CheckResult, String> {
